@@ -56,3 +56,12 @@ pub open spec fn output_cells_addressed(pi: &PublicInput) -> bool {
     n_out <= pi.main_page.0@.len() && forall|j: int| 0 <= j < n_out ==> (#[trigger] pi.main_page.0@[pi.main_page.0@.len() - n_out + j]).address@ == pi.segments@[2].begin_addr@ + j
 }
 
+
+/// [ASSUMED A-fs-nonzero] the two denominators of the public-memory ratio are evaluations at Fiat-Shamir challenges; they
+/// vanish with probability <= (number of public cells + 1) / P.  Not provable: assumed, listed in the evidence.
+#[verifier::external_body]
+pub proof fn assumed_fs_nonzero(pi: &PublicInput, z: nat, alpha: nat, size: nat)
+    ensures
+        fmul(crate::swiftness_air::types::page_product(pi.main_page.0@, z, alpha, pi.main_page.0@.len()), crate::swiftness_air::public_memory::headers_product(pi.continuous_page_headers@, pi.continuous_page_headers@.len())) != 0,
+        pow_mod(fsub(z, fadd(pi.padding_addr@, fmul(alpha, pi.padding_value@))), fsub(size, fadd(pi.main_page.0@.len() as nat % P, crate::swiftness_air::public_memory::headers_total(pi.continuous_page_headers@, pi.continuous_page_headers@.len())))) != 0,
+{}
